@@ -540,18 +540,16 @@ static int parity_handle_chsize(struct snapraid_split_handle* split, data_off_t 
 
 static int parity_split_is_fixed(struct snapraid_parity_handle* handle, unsigned s)
 {
-	/* next one */
-	++s;
-
 	/* the latest one is always growing */
-	if (s >= handle->split_mac)
-		return 0;
+	/* if all the next ones are 0, this one is growing */
+	for (++s; s < handle->split_mac; ++s) {
+		/* if any of the next ones is used, this one cannot change */
+		/* or the position of the data in the next ones would move */
+		if (handle->split_map[s].size != 0)
+			return 1;
+	}
 
-	/* if the next it's 0, this one is growing */
-	if (handle->split_map[s].size == 0)
-		return 0;
-
-	return 1;
+	return 0;
 }
 
 int parity_chsize(struct snapraid_parity_handle* handle, struct snapraid_parity* parity, int* is_modified, data_off_t size, uint32_t block_size, int skip_fallocate, int skip_space_holder)
